@@ -708,7 +708,7 @@ class BinaryOp(Expr):
 
             c_type = {
                 Type.INTEGER: ctypes.c_short,
-                Type.LONG: ctypes.c_long,
+                Type.LONG: ctypes.c_int,  # LONG is 32 bits (c_long is 64 on most platforms)
                 Type.SINGLE: ctypes.c_float,
                 Type.DOUBLE: ctypes.c_double,
             }[self.type]
